@@ -279,6 +279,12 @@ def run_impl(case):
   with gin.config.interactive_mode():
     inside = gin.config._INTERACTIVE_MODE  # pylint: disable=protected-access
   out['interactive_block'] = [bool(inside), bool(gin.config._INTERACTIVE_MODE)]  # pylint: disable=protected-access
+  try:
+    with gin.config.interactive_mode():
+      raise KeyError('leave the block through an exception')
+  except KeyError:
+    pass
+  out['interactive_block'].append(bool(gin.config._INTERACTIVE_MODE))  # pylint: disable=protected-access
   return out
 
 
@@ -294,8 +300,8 @@ def compare(case, impl, model):
 
 def oracle(case, impl):
   if case['kind'] == 'history':
-    if impl.get('interactive_block') != [True, False]:
-      return f'interactive_mode() block: inside/after = {impl.get("interactive_block")}'
+    if impl.get('interactive_block') != [True, False, False]:
+      return f'interactive_mode() block: inside / after normal exit / after exit by exception = {impl.get("interactive_block")}'
     return refmodel.check_history(case, impl, {'register', 'registry', 'interactive'})
   f = impl['facts']
   tag = f'{case["shape"]}/{case["api"]}/{"scoped" if case["scoped"] else "unscoped"}'
